@@ -6,7 +6,10 @@
 From Coq Require Import ZArith NArith String List Bool.
 Import ListNotations.
 From TP Require Import Base.PyVal Fields.FieldAst Fields.SetChain Fields.Doc Fields.Domain
-  Struct.Shapes Struct.Instance Struct.Entry Struct.InstanceProofs Struct.NestedProofs.
+  Struct.Shapes Struct.Instance Struct.Entry Struct.InstanceProofs Struct.NestedProofs
+  Struct.EntrySites Struct.EntrySitesProofs Gen.EntrySites Struct.EntrySitesToday
+  Base.PyOps Base.PyOpsEnum Gen.GuardsEnum Fields.EnumGuardProofs
+  Ser.Json Ser.Serialize Ser.Deserialize Ser.DeserEntry Ser.DeserEntryProofs Ser.DeserDeepProofs.
 Local Open Scope string_scope.
 
 (* Where the line between theorem and correspondence is:
@@ -83,6 +86,112 @@ Section C01.
   Proof. exact (chain_deep_sound re_match e). Qed.
 End C01.
 
+(* ------------------------------------------------------------------ tie of the entry points to the source
+   The model above ASSUMES that every entry point funnels into the validating constructor (or is one of
+   the recognised copy idioms).  That assumption is a table, read off the AST of the working tree on
+   every run (Gen/EntrySites.v): one row per entry point, the kinds of its `return` statements.  The
+   model parametrised by ANY such table ... *)
+Section C01_sites.
+  Variable re_match : N -> pystr -> bool.
+  Variable e : env.
+
+  (* ... is sound whenever the table is safe: single entry points and chains of any length *)
+  Theorem C01_entry_sites_sound : forall t unp cur en x,
+      sites_ok t unp = true ->
+      entry_dom re_match e cur en = true ->
+      (match entry_plan e cur en with PValue _ => inst_ok re_match e cur = true | _ => True end) ->
+      run_entry_sites re_match e t unp cur en = Ok x -> inst_ok re_match e x = true.
+  Proof. exact (fun t unp => entry_sites_sound re_match e t unp). Qed.
+
+  Theorem C01_chain_sites_sound : forall t unp ch x0 x,
+      sites_ok t unp = true ->
+      inst_ok re_match e x0 = true -> chain_dom re_match e x0 ch = true ->
+      run_chain_sites re_match e t unp x0 ch = Ok x -> inst_ok re_match e x = true.
+  Proof. exact (fun t unp => chain_sites_sound re_match e t unp). Qed.
+End C01_sites.
+
+(* ... and violates C01 on a constructed input whenever it is not (valid current instance, or none;
+   the entry point returns; the result is rejected by the spec) *)
+Theorem C01_sites_characterisation : forall re_match t unp,
+    sites_ok t unp = false ->
+    exists k x, (wit_cur k = PNone \/ inst_ok re_match wit_env (wit_cur k) = true) /\
+                run_entry_sites re_match wit_env t unp (wit_cur k) (wit_entry k) = Ok x /\
+                inst_ok re_match wit_env x = false.
+Proof. exact sites_characterisation. Qed.
+
+(* today's table (regenerated from the working tree before this file is compiled) is safe *)
+Theorem C01_entry_sites_today : sites_ok entry_sites default_unpickle = true.
+Proof. exact entry_sites_today. Qed.
+
+(* ------------------------------------------------------------------ deserialization with its real pre-processing
+   [EDeser cls kw] above is parametric in the keyword arguments.  Ser/Deserialize.v models what
+   deserialize_structure_internal computes from a document (field by field, nested structures,
+   collections, multi-field wrappers, Enum.deserialize, keep_undefined, compact form) and ends in the
+   constructor; Ser/DeserEntry.v exposes the keyword arguments it reaches the constructor with. *)
+Section C01_deser.
+  Variable re_match : N -> pystr -> bool.
+  Variable e : env.
+  Variable ens : enums.
+  Variable fl : dflags.
+
+  (* deserializing ANY document is the entry point EDeser on the computed keyword arguments *)
+  Theorem C01_deser_as_entry : forall n ku cn j x cur,
+      deser_struct re_match e ens fl (S n) ku cn j = Ok x ->
+      exists c kw, deser_plan re_match e ens fl n ku cn j = Ok (c, kw) /\
+                   run_entry re_match e cur (EDeser cn kw) = Ok x.
+  Proof. exact (deser_as_entry re_match e ens fl). Qed.
+
+  (* deserialize_structure(cls, document, keep_undefined=ku): an instance that comes out is valid *)
+  Theorem C01_deser_sound : forall n ku cn j x,
+      deser_dom re_match e ens fl n ku cn j = true ->
+      deser_struct re_match e ens fl (S n) ku cn j = Ok x -> inst_ok re_match e x = true.
+  Proof. exact (deser_sound re_match e ens fl). Qed.
+
+  (* Deserializer(cls).deserialize(document, keep_undefined=ku) *)
+  Theorem C01_deserialize_sound : forall n ku cn c j x,
+      find_class e cn = Some c ->
+      deser_dom re_match e ens fl n (adjust_keep_undefined c ku) cn j = true ->
+      deserialize re_match e ens fl (S n) ku cn j = Ok x -> inst_ok re_match e x = true.
+  Proof. exact (deserialize_sound re_match e ens fl). Qed.
+
+  (* ... followed by any chain of validating entry points *)
+  Theorem C01_deser_then_chain_sound : forall n ku cn j x0 ch x,
+      deser_dom re_match e ens fl n ku cn j = true ->
+      deser_struct re_match e ens fl (S n) ku cn j = Ok x0 ->
+      chain_dom re_match e x0 ch = true ->
+      run_chain re_match e x0 ch = Ok x -> inst_ok re_match e x = true.
+  Proof. exact (deser_then_chain_sound re_match e ens fl). Qed.
+
+  (* Nested instances.  [deser_checked] is deser_struct with the statement's domain checked at EVERY
+     constructor call, those for nested objects included (outside it, it declines).  Whenever it returns,
+     (1) the model of typedpy's deserializer returns the same instance - deserialize_single_field is
+     monotone in the function it uses for nested classes (structural induction over its code) - and
+     (2) that instance is valid for its class and so is every Structure instance nested anywhere inside it,
+     whether the deserializer created it for a nested object or it was supplied in the document. *)
+  Theorem C01_deser_checked_agrees : forall n ku cn j x,
+      deser_checked re_match e ens fl n ku cn j = Ok x -> deser_struct re_match e ens fl n ku cn j = Ok x.
+  Proof. exact (deser_checked_agrees re_match e ens fl). Qed.
+
+  Theorem C01_deser_deep_sound : env_defaults_deep re_match e = true -> forall n ku cn j x,
+      deser_checked re_match e ens fl n ku cn j = Ok x -> deep_valid re_match e j = true ->
+      deser_struct re_match e ens fl n ku cn j = Ok x /\ deep_valid re_match e x = true.
+  Proof. exact (deser_deep_sound re_match e ens fl). Qed.
+End C01_deser.
+
+(* ------------------------------------------------------------------ tie of the Enum chain to the source
+   Enum._validate and Enum.__set__ (typedpy/fields/enum.py) are translated to Gallina on every run
+   (Gen/GuardsEnum.v).  For every enum class (all members [allm]), every declared subset [members] of
+   it, every list of literals and EVERY value, the translation of today's source stores / raises
+   exactly what the model [vset] does - on which the theorems above are proved. *)
+Theorem C01_src_Enum_cls_set : forall re_match e cls allm members v,
+    sub_alist members allm ->
+    Enum__set re_match (enum_cls_self cls allm members) v = vset re_match e (FEnumCls cls members) v.
+Proof. exact generated_enum_cls_set. Qed.
+
+Theorem C01_src_Enum_lit_set : forall re_match e values v,
+    Enum__set re_match (enum_lit_self values) v = vset re_match e (FEnumLit values) v.
+Proof. exact generated_enum_lit_set. Qed.
+
 (* The [stable] hypothesis cannot be dropped: Array(items=Boolean(), uniqueItems=True) given
    [True, 'True'] stores [True, True]. *)
 Definition cex_field : field := FSeqEach SeqList FBoolean no_sizec true.
@@ -103,6 +212,18 @@ Print Assumptions C01_chain_from_ctor_sound.
 Print Assumptions C01_field_refuted.
 Print Assumptions C01_vset_keeps_nested_valid.
 Print Assumptions C01_chain_deep_sound.
+Print Assumptions C01_entry_sites_sound.
+Print Assumptions C01_chain_sites_sound.
+Print Assumptions C01_sites_characterisation.
+Print Assumptions C01_entry_sites_today.
+Print Assumptions C01_deser_as_entry.
+Print Assumptions C01_deser_sound.
+Print Assumptions C01_deserialize_sound.
+Print Assumptions C01_deser_then_chain_sound.
+Print Assumptions C01_deser_checked_agrees.
+Print Assumptions C01_deser_deep_sound.
+Print Assumptions C01_src_Enum_cls_set.
+Print Assumptions C01_src_Enum_lit_set.
 
 (* ------------------------------------------------------------------ non-vacuity *)
 
@@ -157,4 +278,69 @@ Example C01_nonvacuous :
   inst_ok (fun _ _ => true) ex_env (PStruct (s2p "Point") [(s2p "x", PNum (NInt 1)); (s2p "y", PNum (NFlt (-1) 0))]) = false /\
   inst_ok (fun _ _ => true) ex_env (PStruct (s2p "Point") [(s2p "y", PNum (NFlt 1 0))]) = false /\
   inst_ok (fun _ _ => true) ex_env (PStruct (s2p "Point") [(s2p "x", PNum (NInt 1)); (s2p "_skip_validation", PBool true)]) = false.
+Proof. repeat split; vm_compute; reflexivity. Qed.
+
+(* the site table is not trivially safe: a cast_to with a trusted return makes the table unsafe, and the
+   parametric model then hands out Strict(a='x') *)
+Definition ex_bad_sites : site_table :=
+  (fn_cast, [XTrusted; XCtor]) :: filter (fun r => negb (pystr_eqb (fst r) fn_cast)) entry_sites.
+
+Example C01_sites_nonvacuous :
+  sites_ok ex_bad_sites true = false /\
+  run_entry_sites (fun _ _ => true) wit_env ex_bad_sites true (wit_cur KCast) (wit_entry KCast) =
+    Ok (PStruct (s2p "Strict") [(flag_trusted, PBool true); (s2p "a", PStr (s2p "x"))]) /\
+  run_entry_sites (fun _ _ => true) wit_env entry_sites default_unpickle (wit_cur KCast) (wit_entry KCast) =
+    Raise TypeError /\
+  chain_dom (fun _ _ => true) ex_env PNone ex_chain = true /\
+  run_chain_sites (fun _ _ => true) ex_env entry_sites default_unpickle PNone ex_chain =
+    run_chain (fun _ _ => true) ex_env PNone ex_chain.
+Proof. repeat split; vm_compute; reflexivity. Qed.
+
+(* the Enum tie is not vacuous: a declared subset of a class; the name of an excluded member is rejected,
+   a declared name is converted, a foreign class's member is rejected, an unhashable value is a TypeError *)
+Definition ex_color_all : list (pystr * pyval) :=
+  [(s2p "RED", PNum (NInt 1)); (s2p "GREEN", PNum (NInt 2)); (s2p "BLUE", PStr (s2p "b"))].
+Definition ex_color_sub : list (pystr * pyval) := [(s2p "RED", PNum (NInt 1)); (s2p "GREEN", PNum (NInt 2))].
+
+Example C01_src_Enum_nonvacuous :
+  sub_alist ex_color_sub ex_color_all /\
+  Enum__set (fun _ _ => true) (enum_cls_self (s2p "Color") ex_color_all ex_color_sub) (PStr (s2p "BLUE")) = Raise ValueError /\
+  Enum__set (fun _ _ => true) (enum_cls_self (s2p "Color") ex_color_all ex_color_sub) (PStr (s2p "GREEN")) =
+    Ok (PEnum (s2p "Color") (s2p "GREEN") (PNum (NInt 2))) /\
+  Enum__set (fun _ _ => true) (enum_cls_self (s2p "Color") ex_color_all ex_color_sub)
+            (PEnum (s2p "Color") (s2p "BLUE") (PStr (s2p "b"))) = Raise ValueError /\
+  Enum__set (fun _ _ => true) (enum_cls_self (s2p "Color") ex_color_all ex_color_sub)
+            (PEnum (s2p "Size") (s2p "RED") (PNum (NInt 1))) = Raise ValueError /\
+  Enum__set (fun _ _ => true) (enum_cls_self (s2p "Color") ex_color_all ex_color_sub) (PList []) = Raise TypeError /\
+  Enum__set (fun _ _ => true) (enum_lit_self [PNum (NInt 1); PStr (s2p "a")]) (PBool true) = Ok (PBool true) /\
+  Enum__set (fun _ _ => true) (enum_lit_self [PNum (NInt 1); PStr (s2p "a")]) (PStr (s2p "1")) = Raise ValueError.
+Proof.
+  split.
+  - intros n x H. unfold ex_color_sub, ex_color_all in *. cbn [alist_get] in *.
+    destruct (pystr_eqb (s2p "RED") n); [exact H|].
+    destruct (pystr_eqb (s2p "GREEN") n); [exact H| discriminate H].
+  - repeat split; vm_compute; reflexivity.
+Qed.
+
+(* deserialization: a nested document is in the domain, runs to a valid instance (the set given as a JSON
+   list, the nested Point as a JSON object), and an ill-typed document is rejected *)
+Definition ex_flags : dflags := {| df_ignore_invalid := false; df_compact := true |}.
+Definition ex_doc : pyval :=
+  PDict [(PStr (s2p "p"), PDict [(PStr (s2p "x"), PNum (NInt 3)); (PStr (s2p "tags"), PList [PStr (s2p "a")])])].
+
+Example C01_deser_nonvacuous :
+  deser_dom (fun _ _ => true) ex_env [] ex_flags 3 true (s2p "Holder") ex_doc = true /\
+  deser_struct (fun _ _ => true) ex_env [] ex_flags 4 true (s2p "Holder") ex_doc =
+    Ok (PStruct (s2p "Holder")
+          [(s2p "p", PStruct (s2p "Point")
+                       [(s2p "y", PNum (NFlt 1 1)); (s2p "x", PNum (NInt 3)); (s2p "tags", PSet true [PStr (s2p "a")])])]) /\
+  deser_struct (fun _ _ => true) ex_env [] ex_flags 4 true (s2p "Point")
+               (PDict [(PStr (s2p "x"), PStr (s2p "3"))]) = Raise TypeError /\
+  (* the domain-checked deserializer returns on the nested document (so C01_deser_deep_sound applies to it),
+     and declines a document that puts a bool where a number is declared (outside the statement's domain) *)
+  deser_checked (fun _ _ => true) ex_env [] ex_flags 4 true (s2p "Holder") ex_doc =
+    deser_struct (fun _ _ => true) ex_env [] ex_flags 4 true (s2p "Holder") ex_doc /\
+  deep_valid (fun _ _ => true) ex_env ex_doc = true /\
+  deser_checked (fun _ _ => true) ex_env [] ex_flags 4 true (s2p "Point")
+                (PDict [(PStr (s2p "x"), PBool true)]) = Raise Unmodelled.
 Proof. repeat split; vm_compute; reflexivity. Qed.
